@@ -641,6 +641,12 @@ pub(crate) fn queue_is_empty(global: &Global, guard: &Guard) -> bool {
     global.queue.verif_is_empty(guard)
 }
 
+/// Epoch the bag at the front of the garbage queue was sealed in.
+#[cfg(feature = "circ_verif")]
+pub(crate) fn queue_front_epoch(global: &Global, guard: &Guard) -> Option<usize> {
+    global.queue.verif_front(|bag| bag.epoch.value(), guard)
+}
+
 impl IsElement<Local> for Local {
     fn entry_of(local: &Local) -> &Entry {
         let entry_ptr = (local as *const Local as usize + offset_of!(Local, entry)) as *const Entry;
